@@ -58,10 +58,19 @@ checks.update({
  "C11": dict(level="fault_enumeration", ref="3 C11, Appendix B", tech="runtime monitoring with fault enumeration: the real EventLoop (v4/v5) over an in-memory transport under virtual time; for every history the connection is cut at every byte offset of both directions, then the wire log of the resumed connection is compared with the pre-failure send order", note=S3_NOTE,
              text="For sampled publish/ack histories (ids wrapping 0-3 times, requests left in the channel) the first connection is failed at EVERY byte of both directions (~110 crash points per history, exhaustive per history), optionally again during replay; on resume with session present every unacknowledged publish must precede any later request, keep id/QoS/topic, and (v4, in-order broker) keep the original order; with session absent nothing carried over may be sent and the state must be clean."),
 })
+S6_NOTE = ("Trusted base: the scripted raw-byte clients of the harness (encoding with a reference encoder written from the specifications, decoding with the *client* crate's codecs), "
+           "the in-memory accept hook (Server::verif_accept = the real per-connection task remote()), the router snapshot requested through the guarded Event::VerifSnapshot. The router "
+           "runs on its own thread with the production loop; time is real, verdicts are taken at logical barriers (connection task joined, router barrier event, sentinel publish received), "
+           "a 30 s watchdog only yields inconclusive. The router half runs on the stepped substrate S4 (see C01's note). Held on the cases counted in the evidence file.")
+checks.update({
+ "C16": dict(level="fault_enumeration", ref="3 C16", tech="runtime monitoring with fault enumeration on the full in-memory broker stack: every end point of short sessions x 11 end flavours (socket close, close mid-frame, DISCONNECT variants, malformed frames, bad acks) plus keep-alive expiry; will publications counted at subscribers after logical barriers; plus the stepped router half (PublishWill in every order)", note=S6_NOTE,
+             text="Will published exactly once to the current matching subscribers iff the connection ended without DISCONNECT, never after DISCONNECT, never from a client without a will, retain flag observable through a later subscription; v4 and v5 clients, will QoS 0-2, retained or not, will properties, 0-3 observers; for each generated session every end point is crossed with every end flavour (exhaustive per session; sessions sampled). Router half on S4: will registered at connect, dropped by DISCONNECT, published once by Event::PublishWill in every order relative to link drops and router-initiated closes."),
+ "C19": dict(level="exploration", ref="3 C19", tech="runtime monitoring on the full in-memory broker stack: first-packet matrix against 8 listeners (v4/v5 x none/static/callback/both) judged by an admissibility predicate written from the statement (CONNACK, effect probe, router snapshot); connect/take-over storms against max_connections 1-3; plus the stepped router half", note=S6_NOTE,
+             text="A network connection becomes a session only for a valid CONNECT of the listener's version with non-zero keep-alive, a client id free of + $ # / (non-empty unless clean session) and accepted credentials; otherwise no successful CONNACK, no SUBACK, no publish reaching a witness, and the client is absent from the router's connection map; a valid authenticated CONNECT is accepted; at most one live connection per client id and never more than max_connections after every step. First packets: CONNECT in 1-7 writes, other version, wrong name/level, every other packet type, every proper prefix of a CONNECT, random bytes."),
+ "C20": dict(level="exploration", ref="3 C20", tech="runtime monitoring on the full in-memory broker stack: all four publisher/subscriber listener pairs (scripted clients and real rumqttc event loops), property subsets x QoS x retained replays x wills, subscriber side decoded with the client codecs; plus an encode sweep of every Notification shape the router emits through V4.write / V5.write under catch_unwind", note=S6_NOTE,
+             text="Same topic and payload across protocol versions, MQTT 5 properties absent towards 3.1.1 subscribers and preserved towards MQTT 5 subscribers (topic alias and subscription identifier are the broker's, message expiry may be decremented), retained replays and wills with will properties included; every Forward (all 256 property subsets x QoS 0-2), every acknowledgement the router builds and DISCONNECT with each of the 29 reason codes must encode with the subscriber's protocol without panic or error and decode with the client codec."),
+})
 pending = {
- "C16": "check being built (full-stack substrate S6)",
- "C19": "check being built (full-stack substrate S6)",
- "C20": "check being built (full-stack substrate S6)",
 }
 import os, sys
 extra = os.path.join(os.path.dirname(__file__), "manifest_extra.json")
